@@ -102,7 +102,7 @@ func VerifC11_LongStream() {
 	shape := verifC11LongShapes[verifChoice("shape", len(verifC11LongShapes))]
 	plen, chunk := shape[0], shape[1]
 	total := verifParam("longbytes", 300000)
-	var stream []byte
+	stream := make([]byte, 0, total+20000) // one large backing array: contents stay opaque, appends never reallocate
 	var sizes []int
 	for len(stream) < total {
 		start := len(stream)
